@@ -182,9 +182,13 @@ void GlobalPlacer::run() {
     std::cout << std::fixed << std::setprecision(1) << "\tDist " << dist / averageCellLength_;
     std::cout << std::flush;
 
+    // Without wirelength (no net spans two positions) the gap is 0/0 and
+    // there is nothing left to optimise
+    bool noWirelength = ub <= 0.0f;
     float gap = (ub - lb) / ub;
     // Stop if distance or the difference between LB and UB is small enough
-    if (gap < params_.global.gapTolerance || dist < distanceTolerance()) {
+    if (noWirelength || gap < params_.global.gapTolerance ||
+        dist < distanceTolerance()) {
       std::cout << std::endl;
       break;
     }
